@@ -73,73 +73,97 @@ ID = "C01"
 READY = True
 ORACLE = "c01"
 HARNESS_BIN = "c01"
-NCASES = {"quick": 6500, "thorough": 90000}
+NCASES = {"quick": 8000, "thorough": 90000}
 CASE_TIMEOUT = {"quick": 30, "thorough": 120}
 
-LEVEL_TEXT = ("Machine-checked Coq theorems (60 pinned in coq/props/C01.v, no axioms) over word lists of an arbitrary word size "
+LEVEL_TEXT = ("Machine-checked Coq theorems (89 pinned in coq/props/C01.v, no axioms) over word lists of an arbitrary word size "
               "w >= 8 and for ALL operand lengths. (a) Word-level, proved = Z arithmetic: the carry/borrow kernels of add.rs, the "
               "word/double-word multipliers, the schoolbook rows (carry_plus_max trick), helpers::add_signed_mul_split_into_chunks, "
               "Karatsuba with its deferred carries, Toom-3 ENTIRELY at word level (slices of c, scratch buffers t1/t2, evaluation at "
               "0, 1, -1, 2, inf, the five deferred carries, and its calls div_by_word_in_place(t1, 6) / shr_in_place(t2, 1) through "
-              "the word-level models of C02: no 'never negative' subtraction goes negative, both divisions are exact, no "
-              "debug_assert fires), the size dispatch of mul/mod.rs over these kernels for every admissible threshold triple and "
-              "every length pair (balanced or not; thresholds regenerated from the source and proved admissible incl. Toom-3 only at "
-              ">= MIN_LEN = 16; fuel proved sufficient; carry in {-1,0,1}), sqr::simple::square + the sqr dispatch, the three kernel "
-              "entry points the hook drives; the word-level dispatch is proved EQUAL to the value-level one. (b) Scratch memory: the "
-              "words consumed by Karatsuba / Toom-3 / the chunk helper / sqr, transcribed allocation by allocation, never exceed the "
-              "memory_requirement formulas REGENERATED from the source (2n + 2 ceil_log2 n; 4n + 13 ceil_log2 n via the invariant "
-              "f(n) <= 4n + 20(k-2) for n <= 3^k + 2 and 2^20 < 3^13; monotone in n), for every length and every threshold pair "
-              "with T_simple >= 1, T_kara >= 15. (c) Operators: Small/Large arms of + - * sqr cubic over the word-level kernels "
-              "(add_dword spill, add_large, sub_large_ref_val, mul_large_dword, square shortcut) return exactly a+b, a-b (Panic "
-              "NegativeUBig exactly when a<b), a*b, a^2, a^3, canonical; pow.rs with its storage bookkeeping: max_exp_in_word "
-              "lifting, the exp < wexp / < 2 wexp shortcuts, the square-and-multiply loops ON THE RESULT BUFFER - every push stays "
-              "within the capacity asked for (exp+1 resp. 2 exp words, regenerated), push_zeros has room, the copy of res and the "
-              "squaring's scratch fit the MemoryAllocation - pow_large_base, factor-2 removal and 2^k bases through the word-level "
-              "shr / shl / trailing_zeros / set_bit models of C09, sign rule; result = base^exp, canonical. (d) Primitive-operand "
-              "forms (UBig + u64, i128 * IBig, u8 - UBig, assign forms): conversion (from_unsigned, to_sign_magnitude with "
-              "wrapping_neg) + operation = Z operation or Panic NegativeUBig. IBig sign tables regenerated and proved.")
-LEVEL_NOTE = ("Trusted: Coq kernel, translators (thresholds, sign tables, memory formulas / pow capacities), extraction + FastZ.v, "
-              "zarith, harness. Assumed with C02: num-modular's div_rem_2by1 returns quotient and remainder for a normalised divisor "
-              "(hypothesis of every theorem that reaches Toom-3; the oracle instantiates it by exact division). Not proved: that the "
-              "hand-written models transcribe the Rust - measured on every run (model_fidelity same/diff per case: public operators "
-              "in all call forms, every multiplier through verif_hooks::mul_kernel at every length class, the scratch consumption "
-              "model against the MEASURED least amount of scratch with which the real kernel runs, op kmem). By value only: "
-              "Repr::from_le_bytes_large inside from_unsigned for primitives wider than a double word (C07), Buffer capacity "
-              "growth policy and the unsafe Repr transmute (C17), usize overflow of exp * shift.")
-TECHNIQUE = "Coq proof of as-is word-level models = Z specification (incl. scratch-memory and buffer-capacity sufficiency) + extracted-model correspondence run incl. kernel and scratch hooks"
-RULE = ("cases = operation x call form {vv,vr,rv,rr,av,ar} x operand word counts from {0,1,2,3,4,5} u {T-1,T,T+1 for T in "
-        "24 (schoolbook), 30 (squaring), 192 (Karatsuba)} u multiples/unbalanced lengths (k*n+r, 1025+ for the chunked schoolbook) "
-        "x bit patterns {all-ones, 2^k, 2^k+-1, low words zero, top word 1/MAX, sparse, 0/MAX words, random} x related operands "
-        "{equal, +-1, equal high part, carry chains across the 2->3 word boundary, borrow chains} x both signs; pow: base classes "
-        "{0,1,2,2^k, word below/above the lifting shortcuts, double word, >=3 words, even bases} x exponents {0..5, around wexp and "
-        "2*wexp, up to results of thousands of words}; kernels: each multiplier forced through verif_hooks::mul_kernel at lengths "
-        "around its minimum and the thresholds (dispatch at 23..26, 191..196, 570..579 = Toom-3 whose recursive products straddle "
-        "192/193, balanced and unbalanced incl. swapped operands) with random/all-ones/zero accumulators and both signs, sqr_kernel "
-        "at 2..3*30; kmem: scratch reserved vs least scratch that runs (binary search with verif_hooks::mul_kernel_scratch) at "
-        "lengths around every threshold, powers of two and three, unbalanced pairs; primitives of every width on both sides. "
-        "non-trivial = the oracle evaluated the Coq specification and the operands are not both zero; distinct = distinct case texts.")
+              "the word-level models of C02), the size dispatch of mul/mod.rs over these kernels for every admissible threshold triple "
+              "and every length pair (thresholds regenerated from the source and proved admissible; fuel proved sufficient; carry in "
+              "{-1,0,1}), sqr::simple::square + the sqr dispatch, the three kernel entry points the hook drives; word-level dispatch = "
+              "value-level dispatch. (a') ROUND 4 - THE LOOP KERNELS ARE REGENERATED: tools/translate_c01_r4.py translates, on every "
+              "run, the Rust bodies of 27 functions (math.rs mul_add_carry / _2carry / _carry_dword; add.rs add_one / sub_one / "
+              "add_word / add_dword / sub_word / sub_dword / add_same_len / sub_same_len / add_in_place / sub_in_place / "
+              "sub_same_len_in_place_swap / sub_in_place_with_sign (three while loops, fuel = counter + 1) / add_signed_word / "
+              "add_signed_same_len / add_signed_in_place; mul/mod.rs mul_word_in_place(_with_carry) / mul_dword_in_place "
+              "(chunks_exact_mut(2) + remainder) / add_mul_word_same_len / sub_mul_word_same_len; mul/simple.rs add_mul_chunk / "
+              "sub_mul_chunk / add_signed_mul_chunk; shift.rs shl_in_place) loop by loop into Gallina folds over word lists "
+              "(coq/gen/WordKernelsGen.v), and each generated function is PROVED EQUAL to the hand-written model for every w and "
+              "every input (the schoolbook rows, which index into c, whenever they stay inside c): all contracts transfer to the "
+              "generated code (restated: add/sub_in_place, sub_in_place_with_sign, mul_word/dword_in_place, the schoolbook kernel), "
+              "and the 20 kernels the run drives meet the integer specification the oracle judges with (result = r mod B^n, carry = "
+              "r div B^n) inside their contract boundary. An edited loop body breaks a proof obligation. (b) Scratch memory: consumed "
+              "<= the regenerated memory_requirement formulas for every length and threshold pair. (c) Operators: Small/Large arms "
+              "of + - * sqr cubic over the word-level kernels return exactly a+b, a-b (Panic NegativeUBig exactly when a<b), a*b, "
+              "a^2, a^3, canonical - round 4: mul_large_dword's power-of-two shortcut through the WORD-LEVEL shl_in_place of C09 "
+              "(regenerated from shift.rs too; proved equal to the by-value shift), the `x*x` square shortcut through C05's "
+              "cmp_in_place (Equal iff the word lists are equal); pow.rs with its storage bookkeeping (capacities exp+1 / 2 exp "
+              "regenerated, push_zeros room, scratch), factor-2 removal and 2^k bases through the word-level shr / shl / "
+              "trailing_zeros / set_bit models of C09 - round 4: the shift count exp * shift in usize arithmetic (finding F01, "
+              "fixed): checked, and the panic is proved justified (the result has more than usize::MAX bits). (d) Primitive-operand "
+              "forms: conversion + operation = Z operation or Panic NegativeUBig - round 4: Repr::from_unsigned at word level "
+              "(wider than a double word: little-endian bytes, from_le_bytes_large chunk by chunk = C07's model of from_le_bytes, "
+              "canonical forms are unique, so it IS the by-value conversion the theorems use). IBig sign tables regenerated and proved.")
+LEVEL_NOTE = ("Trusted: Coq kernel, translators (thresholds, sign tables, memory formulas / pow capacities; the loop-to-fold translator "
+              "tools/translate_c01_r4.py: what it renders wrongly shows up as a failed equality with the hand model or as asis=diff "
+              "in the run, unless the hand model makes the same mistake AND the run misses it), extraction + FastZ.v, zarith, "
+              "harness. Atoms of the generated code: overflowing/wrapping ops, split_dword / double_word / extend_word as their "
+              "mathematical definitions; + - * << on Word / DoubleWord as exact integer operations (an overflow would be a panic in "
+              "the checked build); arch::add::add_with_carry / sub_with_borrow = the models tied by C19. Assumed with C02: "
+              "num-modular's div_rem_2by1 contract (Toom-3's division by 6). Not proved: that the hand-written models of the "
+              "recursive multipliers, of the operator arms and of pow.rs transcribe the Rust (measured per case at w = 64 AND at "
+              "w = 32 against the force_bits=\"32\" build: public operators, multipliers through verif_hooks::mul_kernel with the "
+              "32-bit thresholds in words of 32 bits, every add.rs / mul/mod.rs kernel through verif_hooks::word_kernel, scratch "
+              "consumption against the measured minimum). By value only: Buffer capacity growth policy and the unsafe Repr "
+              "transmute (C17); pow of a double-word base with exp >= 2^63 (`2 * exp` capacity: the allocation panics long "
+              "before).")
+TECHNIQUE = "Coq proof of as-is word-level models = Z specification; loop kernels regenerated from the Rust source and proved equal to the models; extracted-model correspondence run on a 64-bit and a 32-bit build incl. kernel, word-kernel and scratch hooks"
+RULE = ("every case runs on the 64-bit and on the force_bits=32 build (the oracle runs the word-level models at the word size of the "
+        "answer); size classes are counted in words of 64 or 32 bits (chosen per case). cases = operation x call form "
+        "{vv,vr,rv,rr,av,ar} x operand word counts from {0,1,2,3,4,5} u {T-1,T,T+1 for T in 24 (schoolbook), 30 (squaring), 192 "
+        "(Karatsuba)} u multiples/unbalanced lengths (k*n+r, 1025+ for the chunked schoolbook) x bit patterns {all-ones, 2^k, "
+        "2^k+-1, low words zero, top word 1/MAX, sparse, 0/MAX words, random} x related operands {equal, +-1, equal high part, "
+        "carry chains across the 2->3 word boundary, borrow chains} x both signs; pow: base classes {0,1,2,2^k, word below/above "
+        "the lifting shortcuts, double word, >=3 words, even bases} x exponents {0..5, around wexp and 2*wexp, up to results of "
+        "thousands of words} + corpus: shift counts that do not fit in usize; kernels: each multiplier forced through "
+        "verif_hooks::mul_kernel at lengths around its minimum and the thresholds (kmul: lengths in 64-bit words, run with twice "
+        "the words on the 32-bit build; kmul32 / ksqr32: lengths in 32-bit words at 23..26, 191..196, 570..579; kmul64: forced "
+        "Karatsuba / schoolbook cases whose doubled form would leave the hook's contract), sqr_kernel at 2..3*30; wk: each of the "
+        "20 kernels of add.rs / mul/mod.rs through verif_hooks::word_kernel at w = 64 and w = 32 with lengths 0..6 and 7..40, "
+        "leading zero words, all-ones / zero runs (carry and borrow to the top), equal / off-by-one / equal-high-part operands, "
+        "every signed word incl. MIN, double words incl. powers of two; kmem: scratch reserved vs least scratch that runs; "
+        "primitives of every width on both sides (u128 beyond a double word on the 32-bit build = from_le_bytes_large). "
+        "Answers marked NATIVE are per build; all others must agree between the builds. non-trivial = the oracle evaluated the "
+        "Coq specification and the operands are not both zero; distinct = distinct case texts.")
 EXPLANATION = ("Theorems (coq/props/C01.v): every kernel of add.rs/mul/*.rs/sqr modelled over word lists satisfies its value contract "
-               "c' + carry*B^n = c + sign*a*b for all inputs, all lengths and all word sizes - Toom-3 and the dispatch entirely at "
-               "word level; scratch memory consumed <= reserved for all lengths; the Small/Large operator arms of + - * sqr cubic "
-               "pow (with buffer capacities) and the primitive forms equal Z arithmetic; the regenerated sign tables equal "
-               "Z.add/Z.sub/Z.mul. Tie to the code: thresholds, tables, memory formulas and pow capacities re-translated from the "
-               "source on every run (a changed constant breaks a proof obligation); public operators and hook-driven kernels "
-               "compared with the extracted specification (GMP integers) and with the extracted WORD-LEVEL as-is models (fidelity "
-               "statistic), scratch consumption compared with the measured minimum.")
+               "c' + carry*B^n = c + sign*a*b for all inputs, all lengths and all word sizes; the loop kernels are RE-TRANSLATED from "
+               "the Rust source on every run and proved equal to those models (an edited loop body breaks a proof obligation; a "
+               "function the translator cannot read keeps its last good copy and is reported, never an alarm); scratch memory "
+               "consumed <= reserved; the Small/Large operator arms of + - * sqr cubic pow (with buffer capacities and the checked "
+               "shift count) and the primitive forms equal Z arithmetic; the regenerated sign tables equal Z.add/Z.sub/Z.mul. Tie to "
+               "the code: thresholds, tables, memory formulas, pow capacities and loop kernels re-translated from the source on every "
+               "run; public operators, hook-driven multipliers and every word kernel compared with the extracted specification (GMP "
+               "integers) and with the extracted as-is models (regenerated kernels included) on a 64-bit and a 32-bit build of the "
+               "library (fidelity statistic; cross-build agreement of every value answer).")
 TRUSTED_BASE = [
     "Coq 8.16.1 kernel (coqc, full .vo build)",
     "tools/translate.py renders THRESHOLD_SIMPLE/THRESHOLD_KARATSUBA/MIN_LEN/CHUNK_LEN/MAX_LEN_SIMPLE and impl_ibig_add/sub/mul faithfully (add->Z.add, sub_signed->Z.sub, with_sign->signed)",
     "tools/translate_c01_r3.py renders math::ceil_log2, memory_requirement_up_to/_exact (mul, karatsuba, toom_3, sqr) and the Buffer::allocate / MemoryAllocation::new amounts of pow.rs into coq/gen/MulMemory.v, counting layouts in words; bit_len is a hand-written atom (Z.log2 + 1)",
+    "tools/translate_c01_r4.py renders the loop kernels (for over iter_mut / zip / enumerate / chunks_exact_mut(2), while with fuel, early return, split_first_mut / split_at_mut views, `&mut x[a..b]` arguments) into coq/gen/WordKernelsGen.v; its atoms (Int/WordPrims.v: overflowing_add/sub, wrapping ops, split_dword, double_word, to_sign_magnitude, is_empty; + - * << | on words as exact integer operations; `.unwrap()` of an empty slice = unreachable default) are hand-written",
+    "arch::add::add_with_carry / sub_with_borrow are atoms of the generated kernels (Int/RingAdd.v; tied to arch/generic/add.rs by C19_arch_add_with_carry / _sub_with_borrow; the x86_64 build uses the intrinsics version, tied by the run)",
     "num-modular Normalized2by1Divisor::div_rem_2by1 meets its contract (hypothesis shared with C02; used by Toom-3's division by 6)",
     "extraction: ExtrOcamlBasic + ExtrOcamlZBigInt + coq/extract/FastZ.v; Z in the oracle is zarith/GMP (the independent big-integer implementation the property asks for)",
-    "OCaml 4.13.1 + zarith 1.12, oracle/common.ml, oracle/driver_c01.ml; Rust harness harness/src/bin/c01.rs",
-    "hooks dashu_int::verif_hooks::{mul_kernel, mul_kernel_scratch, mul_scratch_words, sqr_kernel, MUL_PARAMS, repr_layout_*} (cfg(dashu_verif), add-only) call the internal kernels unchanged",
-    "the hand-written word-level models in coq/theories/Int/Ring*.v (and the C02/C09 models they call: DivWordModel.div_by_word/shr_in_place, BitsKernels.repr_shl/shr_ref/set_bit/trailing_zeros) transcribe the Rust; fidelity is measured by the correspondence run, not proved",
+    "OCaml 4.13.1 + zarith 1.12, oracle/common.ml, oracle/driver_c01.ml; Rust harness harness/src/bin/c01.rs (both builds)",
+    "hooks dashu_int::verif_hooks::{mul_kernel, mul_kernel_scratch, mul_scratch_words, sqr_kernel, word_kernel, MUL_PARAMS, WORD_BITS, repr_layout_*} (cfg(dashu_verif), add-only) call the internal kernels unchanged",
+    "the hand-written word-level models of the recursive multipliers (helpers, Karatsuba, Toom-3, dispatch, sqr), of the operator arms and of pow.rs in coq/theories/Int/Ring*.v (and the C02/C05/C07/C09 models they call: DivWordModel.div_by_word/shr_in_place, ReprOrdModel.cmp_in_place, IoSpec.le_value/le_bytes_n, BitsKernels.shl_in_place/repr_shl/shr_ref/set_bit/trailing_zeros) transcribe the Rust; fidelity is measured by the correspondence run on both builds, not proved",
 ]
 ASSUMPTIONS = [
     "UBig::from_words / as_words / IBig::from_parts / as_sign_words transport values faithfully (used by the harness instead of any parser)",
-    "exponents and lengths stay far below usize::MAX (no overflow of exp * shift, allocation succeeds)",
-    "primitive word operations of core (overflowing_add, widening multiplication through u128) behave as their mathematical definitions mod 2^64 / 2^128",
+    "usize is 64 bits wide in both builds (force_bits changes Word only); lengths stay far below usize::MAX and allocation succeeds, except where the theorems say otherwise (the checked shift count of pow)",
+    "primitive word operations of core (overflowing_add, widening multiplication through u128 / u64) behave as their mathematical definitions mod 2^w / 2^2w",
 ]
 
 W = 64            # word size the size classes of the current case are counted in (switched per case: 64 or 32)
@@ -427,7 +451,9 @@ def kernel_case(rng, tier):
     # a case in 64-bit words also runs on the 32-bit build with twice the words - except forced Karatsuba above 96 words: doubled,
     # its recursion / tail would reach Toom-3 sizes, whose scratch demand the Karatsuba reservation of the hook does not cover
     # (the real dispatch never sends more than 192 words to Karatsuba): those run on the 64-bit build only (kmul64)
-    name = "kmul32" if W == 32 else ("kmul64" if which == 2 and lb > 96 else "kmul")
+    # likewise the forced schoolbook kernel: a long operand (> CHUNK_LEN words) is cut into chunks and the tail re-enters the size
+    # dispatch, which must stay in the schoolbook class (no scratch memory is reserved for it): doubled, lb > 12 with la > 512 would not
+    name = "kmul32" if W == 32 else ("kmul64" if (which == 2 and lb > 96) or (which == 1 and lb > 12 and la > 512) else "kmul")
     return "%s %x %d %x %x %s %s %s" % (name, which, rng.below(2), la, lb, hx(c), hx(a), hx(b))
 
 
@@ -530,7 +556,7 @@ def gen_cases(rng, tier, n):
     while len(out) < n:
         # size classes counted in 64-bit words or in 32-bit words (every case runs on both builds)
         set_word(64 if rng.chance(3, 5) else 32)
-        k = rng.below(108)
+        k = rng.below(114)
         if k >= 100:
             out.append(wk_case(rng, tier))
         elif k < 12:
